@@ -309,6 +309,43 @@ def run_guarded(cmd, lines, per_case_s=90):
     return out
 
 
+MINLL, MAXLL = -(1 << 63), (1 << 63) - 1
+EDGE = [MINLL, MINLL + 1, -(1 << 32), -65, -64, -63, -2, -1, 0, 1, 2, 3, 63, 64, 65, 1 << 31, 1 << 32, MAXLL - 1, MAXLL]
+AOPS = [b"*", b"/", b"%", b"+", b"-", b"<<", b">>"]
+
+
+def gen_ppfold(rng, n):
+    """`#if (a) op (b)`: every pair of boundary operands for every operator (the case splits of the
+    theorems: zero divisor, LLONG_MIN with -1, results one past either end, shift counts around 0 and 64),
+    then random 64-bit operands"""
+    cs = [[o, str(a).encode(), str(b).encode()] for o in AOPS for a in EDGE for b in EDGE]
+    for _ in range(n):
+        o = rng.choice(AOPS)
+        a = rng.choice(EDGE) if rng.random() < 0.3 else rng.randint(MINLL, MAXLL) >> rng.choice([0, 0, 8, 32, 48, 60])
+        b = rng.choice(EDGE) if rng.random() < 0.4 else rng.randint(MINLL, MAXLL) >> rng.choice([0, 16, 32, 56, 60, 62])
+        cs.append([o, str(a).encode(), str(b).encode()])
+    return cs
+
+
+def build_ppub():
+    """the preprocessor alone with UBSan + ASan (13 s): the only instrumented build this check uses"""
+    src = os.path.join(vlib.VERIF, "harness", "ppub_c13.cpp")
+    scpp = os.path.join(vlib.REPO, "externals", "simplecpp", "simplecpp.cpp")
+    out = os.path.join(vlib.BUILD, "harness", "ppub_c13")
+    os.makedirs(os.path.dirname(out), exist_ok=True)
+    stamp = out + ".stamp"
+    key = hashlib.sha1(open(src, "rb").read() + open(scpp, "rb").read() + open(scpp[:-3] + "h", "rb").read()).hexdigest()
+    if os.path.exists(out) and os.path.exists(stamp) and open(stamp).read() == key:
+        return out
+    cmd = ["g++", "-std=c++11", "-O1", "-g", "-fsanitize=undefined,address", "-fno-sanitize-recover=all",
+           "-I" + os.path.dirname(scpp), src, scpp, "-o", out]
+    rc, o, dt = vlib.sh(cmd, timeout=900)
+    if rc != 0:
+        raise vlib.BuildError("sanitizer build of simplecpp failed: " + o[-1500:])
+    open(stamp, "w").write(key)
+    return out
+
+
 # ------------------------------------------------------------------ the check
 def check(run, replay):
     quick = run.tier == "quick"
@@ -393,6 +430,54 @@ def check(run, replay):
                       {"input": {"token_link_pairs": vlib.show(c)}, "impl": vlib.show(i), "model": vlib.show(m),
                        "broken": None if unsafe else "correspondence validate",
                        "how": "echo '%s' | build/harness/vh_c13 validate" % vlib.enc_case(c)}, found_input=unsafe)
+
+    # ---- X1c: the #if folder's own arithmetic (VERIF_SEED): model vs the real simplecpp::preprocess, then the
+    #      same cases on the preprocessor built with UBSan/ASan (the model's U outcomes are what it must report)
+    pcases = gen_ppfold(rng, N(3000, 100000))
+    pcases = [list(c) for c in dict.fromkeys(tuple(c) for c in pcases)]
+
+    def pcanon(o):
+        return o[:1] if o and o[0] == b"X" else o
+    rc, pmo, _ = vlib.run_lines([model], [vlib.enc_case([b"ppfold"] + c) for c in pcases])
+    pm = [pcanon(vlib.dec_line(l)) for l in pmo]
+    pio = run_guarded([vh, "ppfold"], [vlib.enc_case(c) for c in pcases])
+    for c, m, line in zip(pcases, pm, pio):
+        dead = line.startswith("!")
+        i = [line.encode()] if dead else pcanon(vlib.dec_line(line))
+        expr = "#if (%s) %s (%s)" % (c[1].decode(), c[0].decode(), c[2].decode())
+        run.count("ppfold", None, nontrivial=tuple(c), bucket=c[0].decode() + ":" + ("UB-in-model" if m == [b"U"] else ("throws" if m == [b"X"] else "value")))
+        if dead:
+            run.stream("ppfold")["disagreements"] += 1
+            run.violation("ppfold:died:" + c[0].decode() + ":" + c[1].decode() + ":" + c[2].decode(),
+                          "`%s`: the preprocessor does not return (%s); model: %s" % (expr, line, vlib.show(m)),
+                          {"input": {"source": expr + "\n#endif\n"}, "impl": line, "model": vlib.show(m),
+                           "how": "printf '%s\\n#endif\\n' > t.c; cppcheck t.c" % expr})
+        elif m != [b"U"] and m != i:
+            run.stream("ppfold")["disagreements"] += 1
+            run.violation("ppfold:" + c[0].decode() + ":" + c[1].decode() + ":" + c[2].decode(),
+                          "`%s`: simplecpp %s, model %s" % (expr, vlib.show(i), vlib.show(m)),
+                          {"input": {"source": expr + "\n#endif\n"}, "impl": vlib.show(i), "model": vlib.show(m), "broken": "correspondence ppfold"},
+                          found_input=(m == [b"X"] and i[:1] == [b"V"]))
+    ppub = build_ppub()
+    lines = [b" ".join(c).decode() for c in pcases]
+    uio = run_guarded([ppub], lines)
+    for c, m, line in zip(pcases, pm, uio):
+        ub = line.startswith("!")
+        run.count("ppfold-sanitizer", None, nontrivial=tuple(c), bucket=c[0].decode() + ":" + ("report" if ub else "clean"))
+        if ub:
+            expr = "#if (%s) %s (%s)" % (c[1].decode(), c[0].decode(), c[2].decode())
+            p1 = subprocess.run([ppub], input=(b" ".join(c) + b"\n"), stdout=subprocess.PIPE, stderr=subprocess.PIPE)
+            rep = [l for l in p1.stderr.decode("latin-1").split("\n") if "runtime error" in l or "ERROR: AddressSanitizer" in l][:2]
+            run.stream("ppfold-sanitizer")["disagreements"] += 1
+            key = "ppif-ub:" + c[0].decode() if m == [b"U"] else "ppif-ub-unpredicted:%s:%s:%s" % (c[0].decode(), c[1].decode(), c[2].decode())
+            run.violation(key, "`%s`: undefined behaviour in the preprocessor's own code: %s (model: %s)" % (expr, "; ".join(rep) or line, vlib.show(m)),
+                          {"input": {"source": expr + "\n#endif\n"}, "sanitizer": rep, "model": vlib.show(m),
+                           "how": "g++ -fsanitize=undefined,address -fno-sanitize-recover=all -Iexternals/simplecpp /verif/harness/ppub_c13.cpp externals/simplecpp/simplecpp.cpp -o ppub; echo '%s' | ./ppub" % b" ".join(c).decode()})
+        elif m == [b"U"]:
+            # the model says UB and the instrumented run is clean: the model is wrong about the code
+            run.stream("ppfold-sanitizer")["disagreements"] += 1
+            run.violation("ppub-model:" + b":".join(c).decode(), "`%s %s %s`: the model says undefined behaviour, the sanitizer build reports none" % (c[1].decode(), c[0].decode(), c[2].decode()),
+                          {"broken": "correspondence ppfold-sanitizer", "case": vlib.show(c)}, found_input=False)
 
     # ---- search streams: fixed family
     frng = random.Random(FAMILY_SEED)
